@@ -55,13 +55,13 @@ func (l *vpListIter) Valid() bool          { return l.pos >= 0 && l.pos < len(l.
 func (l *vpListIter) Close() error         { return nil }
 
 type vpEnt struct {
-	ukey    []byte
-	ver     uint64
-	meta    byte
-	umeta   byte
-	exp     uint64
-	keyIdx  int
-	val     byte
+	ukey   []byte
+	ver    uint64
+	meta   byte
+	umeta  byte
+	exp    uint64
+	keyIdx int
+	val    byte
 }
 
 // vpMakeEntries builds a sorted multi-version entry list: nk user keys (lengths 1..2,
@@ -140,6 +140,19 @@ func VpHIter() {
 	if opts && vpChoose("prefix", 2) == 1 {
 		prefix = vpBytes("prefix", 1)
 	}
+	// iter.keyiter=1: optionally a key iterator as Txn.NewKeyIterator sets it up (Prefix = one of
+	// the user keys, prefixIsKey, AllVersions): only the versions of that key, in both directions
+	keyIter := vpParam("iter.keyiter", 0) == 1 && vpChoose("keyiter", 2) == 1
+	if keyIter {
+		allVersions = true
+		want := vpChoose("keyiter.key", nk)
+		for _, e := range ents {
+			if e.keyIdx == want {
+				prefix = append([]byte(nil), e.ukey...)
+			}
+		}
+		vpCover("iter.keyiterator")
+	}
 	seekMode := opts && vpChoose("seek", 2) == 1
 	var seekKey []byte
 	if seekMode {
@@ -159,7 +172,7 @@ func VpHIter() {
 		txn:    txn,
 		iitr:   vpListIterOf(ents, reverse),
 		readTs: readTs,
-		opt:    IteratorOptions{Reverse: reverse, AllVersions: allVersions, SinceTs: sinceTs, Prefix: prefix, PrefetchSize: 1 + vpChoose("prefetch", 1+vpParam("iter.opts", 1))},
+		opt:    IteratorOptions{prefixIsKey: keyIter, Reverse: reverse, AllVersions: allVersions, SinceTs: sinceTs, Prefix: prefix, PrefetchSize: 1 + vpChoose("prefetch", 1+vpParam("iter.opts", 1))},
 	}
 
 	// ---- reference: which entries are yielded ----
@@ -187,7 +200,11 @@ func VpHIter() {
 			pick = vpAnd(newest, vpNot(dead))
 		}
 		// prefix option and the seek bound
-		pick = vpAnd(pick, vpHasPrefix(e.ukey, prefix))
+		if keyIter {
+			pick = vpAnd(pick, bytes.Equal(e.ukey, prefix)) // only the versions of the iterator's key
+		} else {
+			pick = vpAnd(pick, vpHasPrefix(e.ukey, prefix))
+		}
 		if len(start) > 0 {
 			if reverse {
 				pick = vpAnd(pick, bytes.Compare(e.ukey, start) <= 0)
